@@ -161,6 +161,15 @@ def run(ctx: RunCtx) -> None:
         ctx.ch.probe(f"max_active={probe.max_active}")
         if sched.cap_hit:
             ctx.ch.probe("step_cap_hit")
+            # bounded liveness: no faults are injected on the connections here, so every client finishes within the step
+            # budget (600 000 scheduler steps; the unchanged tree never came near it in > 100 000 runs).  A client that has
+            # not is a connection that was accepted and never served - the accept loop's 0.5 s polling keeps the clock
+            # moving, so this never shows up as a deadlock.
+            missing = [k for k in range(nclients) if k not in results]
+            if missing:
+                ctx.violation("C41", "client-never-finished", f"step-budget,max_connections={maxc}",
+                              f"clients {missing} had not finished their scripts after {sched.steps} scheduler steps "
+                              f"({sched.now:.0f} simulated seconds); blocked: {sched.describe_blocked()}; schedule {sched.sched_trace[-10:]}")
             return
         if sched.deadlocked:
             ctx.violation("C41", "deadlock", f"max_connections={maxc}", f"no runnable thread: {sched.describe_blocked()}; finished clients "
